@@ -38,16 +38,21 @@ def handleTc (e t : Sexp) : String :=
           | _ => "(typed " ++ resClass r ++ ")"
   | _, _ => "bad-request"
 
-/-- `acc <annotated program>`: would the (verified) monomorphic checker accept this closed
-    program at some type? Used on the LET-EXPANDED members of the family "generalisation under a
+/-- `accp <program>`: would the VERIFIED POLYMORPHIC checker accept this closed program at some
+    type? The family members are sent as they are: the elaborator generalises at `let x = e` and
+    instantiates at variables, `inferA` re-checks (schemes in the context, quantified variables not
+    free in it), so `accept` means a `HasType` derivation in the system with let-polymorphism exists
+    (`Props.C02.infer_sound`) and by `Props.C02.checked_programs_safe` the program cannot go wrong.
+    `acc <annotated program>` (generalisation switched off in the elaborator): would the checker
+    accept this closed program monomorphically? Used on the LET-EXPANDED members of the family "generalisation under a
     binder": for let-bound lambdas, Hindley-Milner typability of the original program is
     monomorphic typability of the expansion. `accept` means `inferA` accepted (a `HasType`
     derivation exists, `Props.C02.infer_sound`); `reject` means the elaborator found no annotation
     or `inferA` refused it. -/
-def handleAcc (e : Sexp) : String :=
+def handleAcc (e : Sexp) (gen : Bool) : String :=
   match parseExpr (Elab.encodeAnn e) with
   | some e =>
-    match Elab.elabProgramInfer surfDeclsA e with
+    match Elab.elabProgramInfer surfDeclsA e gen with
     | .error _ => "(reject)"
     | .ok a =>
       match inferA surfDeclsA [] a with
@@ -95,7 +100,8 @@ def handleGlob (r i : Nat) (k : String) : String :=
 
 def handle : List Sexp → String
   | [.atom "tc", e, t] => handleTc e t
-  | [.atom "acc", e] => handleAcc e
+  | [.atom "acc", e] => handleAcc e false
+  | [.atom "accp", e] => handleAcc e true
   | [.atom "glob", r, i, .atom k] =>
     match r.toNat?, i.toNat? with
     | some r, some i => handleGlob r i k
